@@ -33,7 +33,7 @@ LEVEL_NOTE = ("unaligned datetime queries: any of floor/ceil rounding of each en
 RULE = ("seeded histories of 1-40 updates x queries; distinct = canonical history JSON; non-trivial = >=5 accepted "
         "updates and (a gap or an eviction or an out-of-order update occurred)")
 REQUIRED_BUCKETS = ["infinite-value-written", "moving-window-fed-a-sample-older-than-its-window", "container:list", "container:numpy", "update-rejected-too-old", "update-out-of-order",
-                    "jump-beyond-capacity", "off-grid-update", "half-period-tie", "missing-value-written",
+                    "jump-beyond-capacity", "off-grid-update", "alignment-point-two-thousand-years-back", "update-microseconds-off-the-half-period-point", "half-period-tie", "missing-value-written",
                     "gap-split", "eviction", "query-unaligned", "query-same-slot", "fill-value-zero", "query-index-negative",
                     "query-index-out-of-range", "at-index", "at-timestamp", "at-timestamp-unaligned", "at-gap-slot", "at-out-of-range",
                     "moving-window", "dump-load-round-trip", "timestamps-in-mixed-time-zones", "deep-copied",
@@ -55,6 +55,12 @@ def gen(rng: Any, tier: str, i: int) -> Any:
     cap = rng.randint(1, 8)
     period = rng.choice([0.5, 1.0, 2.0, 60.0, 0.1, 0.2, 0.3, 0.7])  # incl. periods that are not exact binary fractions
     align_off = rng.choice([0.0, 0.0, 0.25, -7.5, 1234.0]) if rng.random() < 0.6 else 0.0
+    far = rng.random() < 0.15
+    if far:
+        # an alignment point two thousand years before the data (the documentation's datetime(1, 1, 1) style): 6e10 s
+        # take 36 bits before the binary point, float seconds resolve ~8 us there
+        align_off = -rng.choice([63113904000.0, 63113904000.25, 63838540800.0])
+    eps = round(rng.choice([1e-6, 2e-6, 3e-6]) / period, 9)  # one to three microseconds, in periods
     ups = []
     newest = None
     cur = rng.randint(0, 20)
@@ -70,6 +76,8 @@ def gen(rng: Any, tier: str, i: int) -> Any:
         else:
             cur = base + rng.randint(-cap, cap)
         off = rng.choice([0, 0, 0, 0, 0.3, -0.3, 0.5, -0.5, 0.49, -0.49])
+        if far and rng.random() < 0.5:
+            off = rng.choice([0.5 + eps, 0.5 - eps, -0.5 + eps, -0.5 - eps])  # microseconds off the half-period point
         val: Any = float(step + 1)
         if rng.random() < 0.2:
             val = rng.choice([None, "nan"])
@@ -222,6 +230,10 @@ def check(case: dict[str, Any], rec: Any) -> None:
         if val in ("inf", "-inf"):
             rec.bucket("infinite-value-written")
         w0 = {"history": hist[-12:], "cap": cap, "period": period, "update": [t, val], "slot": slot}
+        if case["align_off"] < -1e9:
+            rec.bucket("alignment-point-two-thousand-years-back")
+            if 1e-9 < abs(abs(t - math.floor(t)) - 0.5) < 1e-4:
+                rec.bucket("update-microseconds-off-the-half-period-point")
         if abs(t - round(t)) > 1e-9:
             rec.bucket("off-grid-update")
             if abs(abs(t - math.floor(t)) - 0.5) < 1e-9:
